@@ -73,7 +73,7 @@ def plan(prop, tier):
         "C01": [("region", {"C01"}, "any", "release",
                  [corpus("big27.ndjson"), corpus("fixed_findings.ndjson"), corpus("hand.ndjson"),
                   ops("single", ALLF, 480 if q else 4000, 3 if q else 4, 120 if q else 160),
-                  ops("single", "lat,frames,lat,fan,tfan,hang,cxsplit,hang", 800 if q else 8000, 3, 120),   # general slopes, boxes overlapping only a little, thinnest wedges
+                  ops("single", "lat,frames,lat,fan,tfan,hang,cxsplit,hang,tshare,tshare", 1000 if q else 10000, 3, 120),   # tshare: a vertex of another part on the interior of an edge shared by both operands   # general slopes, boxes overlapping only a little, thinnest wedges
                   ops("single", "pinch,holefill,onion,teeth,pinch,lamina", 600 if q else 6000, 3, 120),   # many rings through one vertex (also as a T-touch on the edge below), nested operands, interlocking operands
                   ("fixedops", "witness", "latraw", 2000 if q else 12000, 3, 120, 20260926),   # general position, inexact crossings: judged at witness points (C01_Witness); fixed set, see finding N8
                   ops("single", "bigfan23,bigsliver25,bigfan25,bigsliver20", 200 if q else 2000, 3, 120),   # beyond 2^12 (differences <= 2^25, see DESIGN N5): touch-only operands, arithmetic-free laws
@@ -87,7 +87,7 @@ def plan(prop, tier):
                  [corpus("fixed_findings.ndjson"), corpus("hand.ndjson"),
                   ops("single", SHARED, 600 if q else 5000, 3 if q else 4, 120 if q else 160),
                   ops("single", "cxabut,cxsub,rect,cxabut", 400 if q else 4000, 5, 220),   # larger regions: holes above shared segments
-                  ops("single", "lamina,onion,lamina,holefill,pinch,cxsplit", 600 if q else 6000, 3, 200),   # nesting: holes above holes, islands stacked in one hole, polygons starting in between
+                  ops("single", "lamina,onion,lamina,holefill,pinch,cxsplit,tshare", 700 if q else 7000, 3, 200),   # nesting: holes above holes, islands stacked in one hole, polygons starting in between
                   ops("fwit", "rot-cxabut,rot-cxsub,rot-cx,rot-rect", 300 if q else 5000, 4, 200), enum("fwit", "rot-en:3x3:4:0_0:k", 1024 if q else 32),   # nesting on float operands (holes, islands), judged at witness points
                   enum("single", EN_HOLE, 512 if q else 16), enum("single", EN_RECT, 8 if q else 1),   # enumerated cell sets of a 3x3 grid (holes, diagonal neighbours) and of a 3x2 grid (exhaustive in thorough)
                   tri(2, 840, 3 if q else 1, 1)] + ([] if q else [ops("single", "cx,rect", 600, 6, 260), enum("single", EN_TRI, 8)]))],
@@ -103,23 +103,25 @@ def plan(prop, tier):
                   enum("single", EN_BOTH, 128 if q else 4), enum("single", EN_SHIFT, 8 if q else 1)] + ([] if q else [enum("single", EN_RECTK, 1)]) + [
                   tri(2, 840, 3 if q else 1, 2)])],
         "C05": [("partition", {"C05"}, "any", "release",
-                 [ops("five", ALLF, 300 if q else 3000, 3 if q else 4, 100 if q else 140), ops("five", "pinch,holefill,onion,teeth,pinch,lamina,hang,cxsplit", 500 if q else 5000, 3, 120),
+                 [ops("five", ALLF, 300 if q else 3000, 3 if q else 4, 100 if q else 140), ops("five", "pinch,holefill,onion,teeth,pinch,lamina,hang,cxsplit,tshare,hang", 600 if q else 6000, 3, 120),
                   enum("five", EN_RECT, 16 if q else 1), enum("five", EN_TRI, 512 if q else 16)])],
         "C06": [("algebra", {"C06"}, "any", "release",
                  [ops("five", ALLF, 200 if q else 2000, 3 if q else 4, 100 if q else 140),
                   ops("five", "teeth", 3000 if q else 20000, 3, 100),     # interlocking operands: cheap sessions, at volume
                   ops("five", "cxshift,aff-cxshift,cxshift,lat", 600 if q else 6000, 3, 100),   # lattices shifted against each other: partial collinear overlaps on oblique lines, either operand starting first
                   ops("far", ALLF, 120 if q else 1000, 3, 100),
-                  ops("five", "cxsplit", 300 if q else 3000, 3, 100),     # bounding boxes that merely touch: tips on the interior of a long side, sides shared in part
+                  ops("five", "cxsplit", 300 if q else 3000, 3, 100),
+                  ops("fwit", ROTF, 250 if q else 2500, 3, 120), ops("fwit32", ROTF, 120 if q else 1200, 3, 120),   # float operands: A op A (every edge shared bit for bit) and swapped operands at witness points     # bounding boxes that merely touch: tips on the interior of a long side, sides shared in part
                   enum("five", EN_RECTK, 16 if q else 1), enum("five", EN_SHIFT, 16 if q else 2), enum("five", EN_MIX, 2 if q else 1),
                   ops("deg", EXACT, 60 if q else 300)])],
         "C07": [("representation", {"C07"}, "any", "release",
                  [ops("repr", ALLF, 120 if q else 1200, 3 if q else 4, 90 if q else 130),
-                  ops("repr", "pinch,holefill,pinch,cxsub,onion", 160 if q else 1600, 3, 120),    # single polygons with (triangular / rectangular) holes: polygon vs one-element multipolygon
+                  ops("repr", "pinch,holefill,pinch,cxsub,onion", 160 if q else 1600, 3, 120),
+                  ops("repr", "rect,cxabut,frames,tshare,cxsplit,teeth,cxsub", 400 if q else 4000, 3, 90),   # partial collinear overlaps between multi-part operands: the result must not depend on the order in which the parts are listed    # single polygons with (triangular / rectangular) holes: polygon vs one-element multipolygon
                   ops("repr", "bigsliver25,bigfan25,bigsliver20", 90 if q else 900, 3, 90),
                   ops("repr32", "bigsliver20,bigsliver14,bigfan22,bigsliver23", 120 if q else 1200, 3, 90)])],
         "C08": [("transforms", {"C08"}, "any", "release",
-                 [ops("xform", ALLF, 200 if q else 2000, 3 if q else 4, 100 if q else 140)])],
+                 [ops("xform", ALLF, 200 if q else 2000, 3 if q else 4, 100 if q else 140), ops("xform", "tshare,cxsplit,hang,tshare", 300 if q else 3000, 3, 100)])],   # configurations whose treatment depends on the sweep direction: every symmetry of them
         "C09": [("farparts", {"C09"}, "any", "release",
                  [ops("far", ALLF, 250 if q else 2500, 3 if q else 4, 100 if q else 140), ops("far", "lat,hang,frames,hang", 400 if q else 4000, 3, 100)])],     # hang: slivers reaching into the other operand's box from outside
         "C10": [("f32-agrees", {"C10"}, "any", "release",
@@ -404,6 +406,11 @@ def run(prop, tier, seed, t0):
                    ("bool:comb_subject:diff", 200000, 8192), ("bool:comb:union", 100000, 8192), ("bool:steps:union", 250000, 8192), ("bool:steps:diff", 250000, 2048), ("bool:grid:union", 40000, 8192), ("bool:grid:xor", 40000, 2048),
                    ("bool:grid:int", 90000, 8192), ("bool:stair:int", 1000000, 8192), ("bool:stair:union", 1000000, 2048), ("bool:stair:diff", 1000000, 8192),
                    ("bool:hub:union", 300000, 8192), ("bool:hub_right:xor", 100000, 2048)]
+        # the same kinds of input in a build WITHOUT optimisation (debug assertions on, the default `cargo build`): one long result
+        # contour (stair), long chains of stacked result edges (steps), a vertex of high degree (hub), a long sweep line dropped early (comb)
+        k = 1 if tier == "quick" else 5
+        scs += [("bool:stair:union", 100000 * k, 2048, "unopt"), ("bool:stair:int", 60000 * k, 1024, "unopt"), ("bool:steps:union", 30000 * k, 1024, "unopt"), ("bool:steps:xor", 20000 * k, 2048, "unopt"),
+                ("bool:hub:union", 20000 * k, 1024, "unopt"), ("bool:comb:int", 40000 * k, 512, "unopt"), ("bool:needles:diff", 30000 * k, 1024, "unopt"), ("bool:grid:union", 900 * k, 2048, "unopt")]
         scs += [c for c in combs if c[1] in (24, 100)]
         path = os.path.join(wd, "stack.ndjson")
         checks_splay.scenario(scs, path)
